@@ -478,8 +478,8 @@ func depth() int { return vstat.EnvInt("VERIF_PQ_DEPTH", 3) }
 // comparison / set operators with on/ignoring/group_left/group_right, subqueries and offsets).
 // grammar "extended": DESIGN.md's full grammar = statement + absent*() + constants
 // (vector/scalar/time/pi, date functions without argument).
-func grammar(name string) *pq.Grammar {
-	g := pq.Full(pq.DefaultUniverse(), depth())
+func grammar(name string, u pq.Universe) *pq.Grammar {
+	g := pq.Full(u, depth())
 	if name == "statement" {
 		g.Constants, g.Absent, g.ScalarTop = false, false, false
 	}
@@ -488,8 +488,7 @@ func grammar(name string) *pq.Grammar {
 
 const dbsPerExpr = 4
 
-func genDBs(t *rapid.T) []pq.DB {
-	u := pq.DefaultUniverse()
+func genDBs(t *rapid.T, u pq.Universe) []pq.DB {
 	dbs := []pq.DB{pq.GenDB(t, "db0", pq.DBOpts{U: u, Shape: "dense"}), pq.GenDB(t, "db1", pq.DBOpts{U: u, Shape: "one"})}
 	for i := 2; i < dbsPerExpr; i++ {
 		dbs = append(dbs, pq.GenDB(t, fmt.Sprintf("db%d", i), pq.DBOpts{U: u, Gaps: true}))
@@ -497,9 +496,9 @@ func genDBs(t *rapid.T) []pq.DB {
 	return dbs
 }
 
-func genTemplate(t *rapid.T) string {
+func genTemplate(t *rapid.T, u pq.Universe) string {
 	var parts []string
-	for _, l := range append([]string{"__name__"}, pq.DefaultUniverse().Labels...) {
+	for _, l := range append([]string{"__name__"}, u.Labels...) {
 		switch rapid.IntRange(0, 3).Draw(t, "tmpl."+l) {
 		case 0:
 			parts = append(parts, "{{ $labels."+l+" }}")
@@ -519,14 +518,20 @@ func genTemplate(t *rapid.T) string {
 func drive(t *testing.T, kind, gname string) {
 	rec := vstat.New(t, prop)
 	known := knownMap()
-	g := grammar(gname)
+	// one case in four is drawn over the names Prometheus itself gives a meaning to (ALERTS, alertname, le ...)
+	gs := []*pq.Grammar{grammar(gname, pq.DefaultUniverse()), grammar(gname, pq.SpecialUniverse())}
 	rapid.Check(t, func(rt *rapid.T) {
+		g := gs[0]
+		if rapid.IntRange(0, 3).Draw(rt, "universe") == 3 {
+			g = gs[1]
+			rec.Count("special_names_universe_cases", 1)
+		}
 		expr := g.Top(rt)
 		tmpl := ""
 		if kind == "template" {
-			tmpl = genTemplate(rt)
+			tmpl = genTemplate(rt, g.U)
 		}
-		dbs := genDBs(rt)
+		dbs := genDBs(rt, g.U)
 		node, perr := pq.Parse(expr)
 		if perr != nil {
 			rt.Fatalf("generator bug: %q does not parse: %v", expr, perr)
